@@ -1129,7 +1129,16 @@ class Translator:
         if self.repo is None or base in self.stack or len(self.stack) >= 4:
             raise self.err(ln, f'call of `{base}` (outside the subset)')
         fname = self.spec['file']
-        fs = [f for f in find_functions(fname, (self.repo / fname).read_text(), base) if f.template is None]
+        allf = find_functions(fname, (self.repo / fname).read_text(), base)
+        fs = [f for f in allf if f.template is None]
+        ftypes = set(self.spec.get('float') or [])
+        if not fs and ftypes:           # `template <typename FT> FT h(FT x)` called at the floating type
+            for f in allf:
+                if f.template is not None and f.template[1] > f.template[0] + 2:
+                    names = [t.text for t in f.toks[f.template[0] + 2:f.template[1]] if t.kind == 'id' and t.text not in ('typename', 'class')]
+                    if len(names) == 1:
+                        fs.append(f)
+                        ftypes = ftypes | set(names)
         if len(fs) != 1:
             raise self.err(ln, f'call of `{base}`: {len(fs)} plain definitions in {fname} (outside the subset)')
         f = fs[0]
@@ -1143,6 +1152,8 @@ class Translator:
                 return 'bool'
             if tyn in U32_TYPES:
                 return 'u32'
+            if tyn in ftypes:
+                return 'F'
             raise TranslationError(f'{where}: type `{ty}` (outside the subset)')
         params = []
         for ty, n in c_params(f):
@@ -1151,8 +1162,10 @@ class Translator:
             params.append((n, kind_of(ty)))
         ret = kind_of(' '.join(t.text for t in f.ret_toks))
         pr = Parser(f.body_toks, where, tparams={}, enums=self.enums)
+        pr.float_types, pr.allow_float = set(ftypes), bool(ftypes)
         body = pr.block()
-        sub = Translator(where, dict(file=fname, func=base, ret_kind=ret, enum_types=self.spec.get('enum_types', ())), self.known)
+        sub = Translator(where, dict(file=fname, func=base, ret_kind=ret, enum_types=self.spec.get('enum_types', ()),
+                                     float=sorted(ftypes), fops=self.spec.get('fops')), self.known)
         sub.repo, sub.aux, sub.aux_info, sub.stack, sub.enums = self.repo, self.aux, self.aux_info, self.stack + [base], self.enums
 
         def fell(env2, ind2):
@@ -1936,6 +1949,16 @@ TARGETS += [
              'polymorphic in the scalar type `α`: every C++ operation is one operation of `α` in the same order (the rounding '
              'sequence); a decimal constant is the quotient of two small naturals; `result[hh]` is the variable `res_` (its old '
              'value is returned for an `order` without a case)'),
+    dict(key='dt_intersect', file='mahotas/_distance.cpp', func='dist_transform', pick='generic', tparams=['BaseType'], lean='dt_intersect',
+         params=[], raw_params=True, c_param_names=['Df', 'f', 'n', 'stride', 'z', 'v', 'orig', 'ot', 'ostride'],
+         extra_params=[('fq', 'F'), ('q', 'int'), ('fv', 'F'), ('vk', 'int'), ('s', 'F')],
+         env_kinds={'fq': 'F', 'q': 'int', 'fv': 'F', 'vk': 'int', 's': 'F'},
+         ret_kind='F', select=dict(kind='assign-to', var='s'), result='s', float=['BaseType', 'double'],
+         rename_seq=[(('v', '[', 'k', ']'), 'vk'), (('f', '[', 'q', '*', 'stride', ']'), 'fq'), (('f', '[', 'vk', '*', 'stride', ']'), 'fv')],
+         driver_call='dt_intersect (α := Float) (fl_ (x 0)) (x 1) (fl_ (x 2)) (x 3) (fl_ 0)',
+         doc='the assignment `s = ((f[q*stride] + square(BaseType(q))) - (f[v[k]*stride] + square(BaseType(v[k])))) / 2. / (q - v[k]);` of '
+             '`dist_transform` (abscissa where the parabolas rooted at `v[k]` and `q` meet), polymorphic in the scalar type; `fq`, `fv` stand '
+             'for the two samples `f[q*stride]`, `f[v[k]*stride]`, `vk` for `v[k]`; the last parameter is the old value of `s` (unused)'),
     dict(key='rank_currank', file='mahotas/_convolve.cpp', func='rank_filter', pick='generic', tparams=['T'], lean='rank_currank',
          params=[], raw_params=True, c_param_names=['res', 'array', 'Bc', 'rank', 'mode', 'cval'],
          extra_params=[('n', 'int'), ('N2', 'int'), ('rank', 'int')], env_kinds={'n': 'int', 'N2': 'int', 'rank': 'int'},
@@ -2184,6 +2207,15 @@ def select_stmts(pr: Parser, where, sel):
         out = [pr.stmt() for _ in range(sel['count'])]
         pr.sel_span = (toks[starts[0]].pos, toks[pr.i - 1].end)
         return out
+    if sel['kind'] == 'assign-to':
+        starts = [i for i, t in enumerate(toks) if t.kind == 'id' and t.text == sel['var'] and i + 1 < len(toks) and toks[i + 1].text == '='
+                  and i > 0 and toks[i - 1].kind == 'op' and toks[i - 1].text in (';', '{', '}')]
+        if len(starts) != 1:
+            raise TranslationError(f'{where}: {len(starts)} assignments `{sel["var"]} = …;` found, expected exactly one')
+        pr.i = starts[0]
+        out = [pr.stmt()]
+        pr.sel_span = (toks[starts[0]].pos, toks[pr.i - 1].end)
+        return out
     raise TranslationError(f'{where}: unknown selection {sel}')
 
 
@@ -2309,6 +2341,13 @@ def extracted_sources(repo: Path) -> dict:
                 pr.float_types, pr.allow_float = set(tg.get('float') or []), bool(tg.get('float'))
                 select_stmts(pr, tg['key'], tg['select'])
                 out[tg['key']]['slice'] = f.src[pr.sel_span[0]:pr.sel_span[1]]
+                helpers = []                                # functions of the same file the selected statements call
+                for t in tokenize(out[tg['key']]['slice'], tg['file']):
+                    if t.kind == 'id' and t.text != f.name and t.text not in [h.name for h in helpers]:
+                        hs = find_functions(tg['file'], f.src, t.text)
+                        if len(hs) == 1:
+                            helpers.append(hs[0])
+                out[tg['key']]['helpers'] = [h.text for h in helpers]
         except TranslationError:
             continue
     return out
